@@ -63,6 +63,14 @@ Theorem C24_loser_sent_cease_partial : forall (c : cfg) (ls : list label) (p : p
 Proof. exact loser_sent_cease_partial. Qed.
 Print Assumptions C24_loser_sent_cease_partial.
 
+(* "... at most one of them is EVER Established": along a serialised schedule, if connection i is Established /
+   attached at some point and connection j at a later one, they are the same connection. *)
+Theorem C24_only_one_ever_partial : forall (c : cfg) (l1 l2 : list label) (p1 p2 : peer) (i j : idx),
+  run (init c) l1 = Some p1 -> run p1 l2 = Some p2 -> serialised (init c) (l1 ++ l2) = true ->
+  est (get p1 i) = true -> est (get p2 j) = true -> i = j.
+Proof. exact only_one_ever_partial. Qed.
+Print Assumptions C24_only_one_ever_partial.
+
 (* Without guard (1) the statement is false on the current code: FSM.run() stores the state run() returned only
    after run() has returned, so two OPENs can both be checked against the old states; both pass, both sessions
    establish and attach (the schedule even satisfies guard (2)). *)
